@@ -16,6 +16,11 @@ CHECKS = {
     text="Nine designed transactions (a chain of four against an ancestor limit of three, a two-parent join, one sufficient and one insufficient RBF replacement, a cell-dep user and the consumer of that dep cell) over a real node with production pool wiring; operations Submit(i), Remove(i), Mine (the node's own block template is sealed and processed: pending -> gap -> proposed -> committed), Expire (clock past expiry + a block). All histories to the tier's depth, with RBF on and off, are replayed; after every operation a hook dumps entries, input/dep edge maps, links and the recorded aggregates, and the oracle recomputes: no double spend, edges == inputs/deps of pooled entries, link key set == entries, parents/children == actual spend/dep relations and mutually transposed, ancestor/descendant count/size/cycles/fee == sums over the link closure, ancestor limit, status counters and totals, and for replacements: accepted => all conflicts and their descendants gone; rejected => pool unchanged.",
     note="Trusted: the dump hook reads the structures faithfully; transactions use always-success locks; pool size-limit eviction is reached only through the small max_tx_pool_size; concurrency between the pool's service tasks is not enumerated (operations are applied one at a time to quiescence).",
     design="DESIGN.md §5 C11"),
+ "C12": dict(engine="node", category="model_checking",
+    technique="exhaustive enumeration of histories (scenario x role assignment x submission positions x assembler on/off x length of the first lead) on a real node with the production tx-pool service, two freshly forged competing branches per history, pool dump judged after every event against a plain replay of the new main chain",
+    text="Blocks a1..a_f | b1..b_(f+1) (reorg: f detached, f+1 attached) | a_(f+1) a_(f+2) (reorg back; block-1 proposals leave the window) for f = 1 and 3 (2 and 4 with a header dep). Scenarios: parent/child chain, two conflicting spends, a header-dep on a1 plus a bystander, a cell-dep user and the dep cell's spender. Per transaction and branch the role is nothing / proposed in block 1 / proposed and committed in block 3 (all 9 combinations per tx, invalid ones filtered); each transaction is submitted never or at one of the positions {start, after a1, after a2, end of first lead, just before B overtakes, after B overtook, end} (quick: never/start/after a1/after B overtook). After every submission and block, once the pool reports the new tip: no pooled tx is committed on the main chain, every input and cell dep is live on it or created by a pooled tx, every header dep is on it, every tx committed only on the abandoned branch and admissible on the new one is pooled again, and with the assembler on each entry's stage equals proposed/gap/pending computed from the new chain's proposal window.",
+    note="Trusted: the pool dump hook; forged blocks are built with ckb's own reward/DAO calculators. Not covered: interleavings of the reorg notification with a concurrent submission (each event runs to quiescence), expiry and size-limit eviction during reorgs, RBF during reorgs.",
+    design="DESIGN.md §5 C12"),
  "C15": dict(engine="seq", category="exploration",
     technique="small-scope exhaustive enumeration of value shapes (all vector lengths 0..2, all option/union arms, numeric extremes in every position) and of single-field / single-byte mutations, with round-trip, field-content and hash-commitment oracles",
     text="243 transaction shapes, 81 block shapes, every script hash type x args size, every protocol union arm (27 messages) are pushed through: molecule strict/compatible decode and field-by-field rebuild; packed->JSON->text->JSON->packed and back; a field-by-field comparison of the JSON object with the packed fields it names (so a swap in both conversion directions is caught); hash laws under an 18-entry transaction mutation catalogue and a block mutation catalogue (tx hash ignores witnesses only, witness hash / transactions root / proposals hash / extra hash / block hash each change when they must, cached view hashes equal recomputation); and ~400k single-byte, header-word and truncation mutants of the encodings, where every mutant accepted by strict decoding must re-encode to itself.",
@@ -48,8 +53,8 @@ CHECKS = {
     design="DESIGN.md §5 C02"),
  "C05": dict(engine="seq", category="model_checking",
     technique="exhaustive enumeration of chunk boundaries (every first split point of small programs, uniform step sizes, pairs of splits, every budget around the exact cost) on the real VM scheduler, compared with the un-chunked run of the same resolved transaction",
-    text="For 38 (program, VM version) pairs from script/testdata (always_success/failure on v0-2, current_cycles, exec from cell data / witness, infinite exec, spawn_cases 1..19 with pipes/wait/inherited fds, spawn+exec, spawn out-of-cycles) the run is cut at every cycle s in [1,T) when T-1 fits the run budget (6 500 quick / 130 000 thorough; else dense head and tail plus an odd stride) and continued by complete and by resume_from_state; executed in uniform chunks for a ladder of step sizes and every tiny step size; cut twice on a grid; and given every total budget in [T-150, T+150] (600 thorough). Verdict and total cycles must equal verify() of the same transaction; budgets below the cost must report the cycle limit; non-terminating programs must never complete.",
-    note="Trusted: the testdata binaries; ckb-vm itself. The signal-driven path (resumable_verify_with_signal) is not driven. One defect is listed as a known finding (spawn/pipe programs report a deadlock when a chunk limit falls on an IO syscall).",
+    text="For 38 (program, VM version) pairs from script/testdata (always_success/failure on v0-2, current_cycles, exec from cell data / witness, infinite exec, spawn_cases 1..19 with pipes/wait/inherited fds, spawn+exec, spawn out-of-cycles) the run is cut at every cycle s in [1,T) when T-1 fits the run budget (6 500 quick / 130 000 thorough; else dense head and tail plus an odd stride) and continued by complete and by resume_from_state; executed in uniform chunks for a ladder of step sizes and every tiny step size; cut twice on a grid; and given every total budget in [T-150, T+150] (600 thorough). Verdict and total cycles must equal verify() of the same transaction; budgets below the cost must report the cycle limit; non-terminating programs must never complete. Pause/resume signals: for the five testdata programs with in-script pause points (DEBUG_PAUSE, v1 and v2) the captured-state path through every pause, resumable_verify_with_signal with an unlimited budget, every budget in [T-60, T+60] (400 thorough) and T/2, 2T/3, 3T/4, 9T/10, each pause answered by Resume; for every other succeeding program the signal path for budgets in [T-4, T+4].",
+    note="Trusted: the testdata binaries; ckb-vm itself. Pause signals land only at the deterministic in-script pause points (installed the way the repository's tests install them); pauses at arbitrary instructions depend on thread timing and are not enumerated. One defect is listed as a known finding (spawn/pipe programs report a deadlock when a chunk limit falls on an IO syscall).",
     design="DESIGN.md §5 C05"),
  "C07": dict(engine="seq", category="exploration",
     technique="exhaustive enumeration of finite boundary lattices of the pure consensus arithmetic (all 2^32 compact values in thorough), judged by an exact big-integer reference of the RFC formulas",
